@@ -483,3 +483,14 @@ add('*', 'findprob-as-reduce', PGF, [("import random\n", "import random\nimport 
 add('C01', 'findprob-as-reduce-from-one', PGF, [("import random\n", "import random\nimport operator\nfrom functools import reduce\n"), (FOLD, "        return reduce(operator.mul, (self.grammar[item[0]][item[1]]['prob'] for item in pt), 1.0)")], None, 'fire', 'C01.R3')
 RECASE = "        for value, label in section_list:\n            if label and label[0] == 'A':\n                lowered = value.lower()\n                if len(lowered) != len(value) or any(\n                        (low.upper() if orig.isupper() else low) != orig\n                        for orig, low in zip(value, lowered)):\n                    cur_prob = 0\n"
 add('C13', 'revert-fix-3b08f17 (no re-casing guard in the scorer)', SPS, RECASE, "", 'fire', 'C13.R14')
+LG_CALL = "            skip_brute,\n            skip_case,\n            base_structure_folder\n            )"
+LG_DEF = "def load_grammar(rule_name, base_directory, version, skip_brute, skip_case, base_structure_folder):"
+LG_DEF2 = "def load_grammar(rule_name, base_directory, version, skip_brute=False, skip_case=False, base_structure_folder='Grammar'):"
+add('C01', 'prince-folder-dropped-on-the-way-to-the-loader', PGF, LG_CALL, "            skip_brute = skip_brute,\n            skip_case = skip_case,\n            )", 'fire', 'C01.R12')
+add('C14', 'options-by-keyword *', PGF, LG_CALL, "            skip_brute = skip_brute,\n            skip_case = skip_case,\n            base_structure_folder = base_structure_folder,\n            )", 'silent')
+add('C17', 'prince-folder-dropped-on-the-way-to-the-loader', PGF, LG_CALL, "            skip_brute = skip_brute,\n            skip_case = skip_case,\n            )", 'fire', 'C17.R14')
+NG_OPEN = "        with codecs.open(full_file_path, 'r', encoding= grammar['alphabet_encoding'], errors= 'strict') as file:\n            for line in file:\n                line = line.rstrip('\\n\\r').split('\\t')"
+add('C10', 'ngram-reader-keeps-CR', OIOF, NG_OPEN, "        with open(full_file_path, 'r', encoding= grammar['alphabet_encoding'], errors= 'strict', newline='\\n') as file:\n            for line in file:\n                line = line.rstrip('\\n').split('\\t')", 'fire', 'C10.R15')
+add('C07', 'ngram-reader-keeps-CR', OIOF, NG_OPEN, "        with open(full_file_path, 'r', encoding= grammar['alphabet_encoding'], errors= 'strict', newline='\\n') as file:\n            for line in file:\n                line = line.rstrip('\\n').split('\\t')", 'fire', 'C07.R5')
+add('C07', 'ngram-reader-universal-newlines *', OIOF, NG_OPEN, "        with open(full_file_path, 'r', encoding= grammar['alphabet_encoding'], errors= 'strict') as file:\n            for line in file:\n                line = line.rstrip('\\n').split('\\t')", 'silent')
+add('C18', 'ngram-reader-strips-blanks', OIOF, NG_OPEN, NG_OPEN.replace("rstrip('\\n\\r')", "rstrip()"), 'fire', 'C18.R12')
